@@ -740,7 +740,7 @@ func replayTokenizer(h []pstep, v int) {
 		drainPools()
 	}
 	var t, put *tokenizer.Tokenizer
-	reused, nontrivial := false, false
+	reused, nontrivial, partial := false, false, false
 	used := []string{}
 	comSQL := ""
 	fail := func(i int, sig, clause string, obs, expect any) {
@@ -795,7 +795,16 @@ func replayTokenizer(h []pstep, v int) {
 		if s.St.Com != "none" {
 			wantCom = comLen[comSQL]
 		}
-		cancelledMidRun := s.Op == "CtxFire" && vs.CommentsLen <= wantCom // a run cancelled half-way has captured a prefix of the comments
+		// a run cancelled half-way has captured a prefix of the comments, and keeps it until the next call that
+		// tokenizes or clears (SetDialect leaves the captured comments alone)
+		switch s.Op {
+		case "CtxFire":
+			partial = true
+		case "SetDialect":
+		default:
+			partial = false
+		}
+		cancelledMidRun := partial && vs.CommentsLen <= wantCom
 		if vs.CommentsLen != wantCom && !cancelledMidRun {
 			bad = append(bad, "comments")
 		}
